@@ -293,6 +293,10 @@ func ruleScoDecl(c *Ctx, r *R) {
 					return true
 				}
 			}
+			if ks := nosp(c.Src(call.Args[0])); strings.Contains(ks, ".Pos.String()") {
+				r.ok(k, "hidden temporary keyed by a position (not a script name)")
+				return true
+			}
 			r.undecided(k, c.Pos(call), "a c.Locals.Index call the path analysis did not reach")
 			return true
 		})
@@ -616,6 +620,16 @@ func ruleScoChain(c *Ctx, r *R) {
 			}
 			found = true
 			st, rec := idx(evs, "store", "key"), idx(evs, "rec", deep)
+			// the alias that was moved up must be vacated before the recursion refills it (or not):
+			// a "~key" left behind survives the whole chain and re-creates key, pointing at a
+			// dead slot, when the outermost declaration is dropped later
+			vac := -1
+			for i, e := range evs {
+				if e.kind == "delete" && e.key == deep && (rec < 0 || i < rec) {
+					vac = i
+				}
+			}
+			r.check(vac >= 0, "unshadow vacate", c.Pos(fd), "\"~\"+key is deleted once its binding has moved up", "lookup.unshadow copies map[\"~\"+key] to map[key] but never deletes \"~\"+key: the deepest alias survives, and when the outer variable's own block ends Drop/unshadow re-creates the name from it, pointing at a dead slot — after `if c { x := 1; if c { x := 2 } }` a later `x` in the same function is that dead local instead of the package-level x (or the imported package of that name)")
 			r.check(st >= 0 && rec >= 0 && st < rec, "unshadow pop-order", c.Pos(fd), "store map[key] = map[\"~\"+key], then recurse on \"~\"+key",
 				"lookup.unshadow does not restore the outer binding (map[key] = map[\"~\"+key]) before moving the deeper ones up: the binding it restores is the wrong one")
 			for i, e := range evs {
